@@ -15,11 +15,16 @@ CLAIMED = {
     "C01": dict(
         text="TLC enumerates every running order (0..3/4 stories x metadata layout) x every story-level message inside the bound "
              "from spec/MC_merge.tla, checks the declarative ordering theorems (MosTheorems) on the spec's own Merge, every "
-             "transition is replayed into the real code, and TLC (Trace_Merge) judges each recorded step through the story-ID lens.",
+             "transition is replayed into the real code, and TLC (Trace_Merge) judges each recorded step through the story-ID lens. "
+             "Histories: all pairs over the full MosLife alphabet and every triple over the story alphabet on one live object; "
+             "beyond the bound 2 000 / 40 000 seeded random transitions (12 stories, lists up to 6); and every merge the "
+             "repository's own tests perform, recorded by the tracer - all judged by the same TLC trace spec.",
         design="6/C01", technique="TLA+ model (MosMerge) checked by TLC; exhaustive transition replay into the code; TLC trace judge"),
     "C02": dict(
         text="Same scheme at item level: addressed story with 0..3/4 items (with/without interleaved paragraphs) and a second story "
-             "with the same item IDs x every item-level message inside the bound; judged through the item-ID lens of the addressed story.",
+             "with the same item IDs x every item-level message inside the bound; judged through the item-ID lens of the addressed story. "
+             "Plus histories (every triple over the item alphabet incl. roReplace / roStorySend), random transitions beyond the "
+             "bound and the traced repository test suite.",
         design="6/C02", technique="TLA+ model checked by TLC; exhaustive transition replay; TLC trace judge"),
     "C03": dict(
         text="All story-, item- and metadata-level transitions of the bounded model replayed into the code; TLC compares the sequence of "
